@@ -198,3 +198,32 @@ func ElementCountToByteCount(elementBitWidth int, elementCount uint64) uint64 {
 	}
 	return byteCount
 }
+
+// TypeReaches reports whether a value of type t can contain (directly, or
+// through pointers, containers and struct fields) a value of type target.
+func TypeReaches(t reflect.Type, target reflect.Type) bool {
+	return typeReaches(t, target, map[reflect.Type]bool{})
+}
+
+func typeReaches(t reflect.Type, target reflect.Type, visited map[reflect.Type]bool) bool {
+	if t == target {
+		return true
+	}
+	if visited[t] {
+		return false
+	}
+	visited[t] = true
+	switch t.Kind() {
+	case reflect.Ptr, reflect.Slice, reflect.Array:
+		return typeReaches(t.Elem(), target, visited)
+	case reflect.Map:
+		return typeReaches(t.Key(), target, visited) || typeReaches(t.Elem(), target, visited)
+	case reflect.Struct:
+		for i := 0; i < t.NumField(); i++ {
+			if typeReaches(t.Field(i).Type, target, visited) {
+				return true
+			}
+		}
+	}
+	return false
+}
